@@ -1,8 +1,11 @@
 (** One entry point for the extracted model runner: component number, numbers in, numbers out. *)
-From Remoc Require Import Lib.Base Run.RunCodec.
+From Remoc Require Import Lib.Base Run.RunCodec Run.RunRobsVec Run.RunRobsDeque Run.RunRobsList.
 
 Definition run (comp : N) (inp : list N) : list N :=
   match comp with
   | 9 => run_codec inp
+  | 131 => run_robs_vec inp
+  | 132 => run_robs_deque inp
+  | 133 => run_robs_list inp
   | _ => [97]
   end.
